@@ -213,9 +213,10 @@ NoMutationVisitsAll ==
      /\ (kind = "list" => vis = LBuild(n0))
      /\ (kind = "rlist" => vis = [i \in 1..n0 |-> n0 + 1 - i])
      /\ (kind = "set" => {vis[i] : i \in 1..n0} = 1..n0)
-\* visited keys are distinct unless the body re-inserted a key
-DictNoRepeatWithoutReinsert ==
-  (kind = "dict" /\ \A i \in 1..Len(script) : \A j \in 1..Len(script[i]) : script[i][j][1] # "set" \/ script[i][j][2] >= 8) =>
+\* a body that never stores into the dict sees every key at most once (with insertions this is
+\* false even for fresh keys: the compaction of a resize moves entries behind the iterator's position)
+DictNoRepeatWithoutStore ==
+  (kind = "dict" /\ \A i \in 1..Len(script) : \A j \in 1..Len(script[i]) : script[i][j][1] # "set") =>
      \A i, j \in 1..Len(vis) : i # j => vis[i][1] # vis[j][1]
 
 (* implementation-shaped vs reference: __Pyx_dict_iter_next agrees with dictiter at every *)
